@@ -147,7 +147,19 @@ Definition neighbors (st : store) (ci : bool) (n : Z) (d : dir) (ty : option str
 (** * Rows.  A cell remembers the vector kind it lives in (vector.rs): NodeId, EdgeId or Generic. *)
 Inductive cell := CNode (i : Z) | CEdge (i : Z) | CVal (v : val).
 Definition row := list cell.
-Record tbl := mkTbl { cols : list string; rows : list row }.
+(** [sel]: when the chunk carries a selection vector (it comes straight out of a FilterOperator),
+    the physical rows underneath it — a FilterOperator stacked on top evaluates its predicate over
+    these and REPLACES the selection (filter.rs l.1212-1224) *)
+Record tbl := mkTbl { cols : list string; rows : list row; sel : option (list row) }.
+Definition mkT (cs : list string) (rs : list row) : tbl := mkTbl cs rs None.
+Definition phys (t : tbl) : list row := match sel t with Some ph => ph | None => rows t end.
+(** a chunk in which nothing passes is dropped altogether ("continue"), so nothing is left for an
+    outer filter to resurrect *)
+Definition filter_tbl (keep : row -> bool) (t : tbl) : tbl :=
+  match filter keep (phys t) with
+  | [] => mkT (cols t) []
+  | rs => mkTbl (cols t) rs (Some (phys t))
+  end.
 
 (** [get_value] *)
 Definition cell_val (c : cell) : val := match c with CNode i => VInt i | CEdge i => VInt i | CVal v => v end.
@@ -163,6 +175,45 @@ Definition to_gen (c : cell) : cell := CVal (cell_val c).
     id, Null stays null, anything else is a type mismatch and pushes NodeId(0) *)
 Definition to_nodecol (c : cell) : cell :=
   match cell_val c with VInt i => CNode i | VNull => CVal VNull | _ => CNode 0 end.
+
+(** A typed vector (vector.rs ValueVector): [set_null] allocates the validity bitmap at the FIRST null
+    with the length the vector has then, and nothing ever extends it — every later null keeps the
+    pushed default (0, 0.0, NodeId(0)); a value of another type is a "type mismatch" and also pushes
+    the default (push_value l.206-217).  Generic vectors store Value::Null itself and are exact. *)
+Inductive coltype := TGen | TNode | TInt | TFlt.
+Definition push_typed (ty : coltype) (seen_null : bool) (c : cell) : cell * bool :=
+  match ty with
+  | TGen => (c, seen_null)
+  | TNode => match c with
+             | CVal VNull => (if seen_null then CNode 0 else c, true)
+             | _ => (c, seen_null)
+             end
+  | TInt => match cell_val c with
+            | VNull => (if seen_null then CVal (VInt 0) else CVal VNull, true)
+            | VInt z => (CVal (VInt z), seen_null)
+            | _ => (CVal (VInt 0), seen_null)
+            end
+  | TFlt => match cell_val c with
+            | VNull => (if seen_null then CVal (VFlt 0 1) else CVal VNull, true)
+            | VFlt n d => (CVal (VFlt n d), seen_null)
+            | _ => (CVal (VFlt 0 1), seen_null)
+            end
+  end.
+Fixpoint push_row (tys : list coltype) (seen : list bool) (r : row) : row * list bool :=
+  match r, tys, seen with
+  | c :: r', ty :: tys', sn :: seen' =>
+      let '(c', sn') := push_typed ty sn c in
+      let '(r'', seen'') := push_row tys' seen' r' in
+      (c' :: r'', sn' :: seen'')
+  | _, _, _ => (r, seen)
+  end.
+Fixpoint push_rows (tys : list coltype) (seen : list bool) (rs : list row) : list row :=
+  match rs with
+  | [] => []
+  | r :: rest => let '(r', seen') := push_row tys seen r in r' :: push_rows tys seen' rest
+  end.
+Definition typed_rows (tys : list coltype) (rs : list row) : list row :=
+  push_rows tys (map (fun _ => false) tys) rs.
 
 Fixpoint pos_first (x : string) (l : list string) : option nat :=
   match l with
@@ -383,22 +434,22 @@ Definition return_tbl (st : store) (items : list (lexpr * option string)) (t : t
     (* simple case: only variables; a ProjectOperator only when columns are dropped or reordered *)
     do ps <- mapM (fun it => match fst it with EVar x => of_opt (pos_last x (cols t)) | _ => Err end) items;
     if Nat.eqb (List.length ps) (List.length (cols t)) && is_identity O ps
-    then Ok (mkTbl names (rows t))
+    then Ok (mkTbl names (rows t) (sel t))
     else do rs <- mapM (fun r => mapM (fun p => do c <- of_opt (nth_error r p); Ok (to_nodecol c)) ps) (rows t);
-         Ok (mkTbl names rs)
+         Ok (mkT names (typed_rows (map (fun _ => TNode) ps) rs))
   else
     do _ <- mapM (fun it => match fst it with
                             | EVar x | EProp x _ => of_opt (pos_last x (cols t))
                             | ELit _ => Ok O
                             | _ => Err end) items;
     do rs <- mapM (fun r => mapM (fun it => proj_cell st (cols t) r false (fst it)) items) (rows t);
-    Ok (mkTbl names rs).
+    Ok (mkT names (typed_rows (map (fun it => if is_var (fst it) then TNode else TGen) items) rs)).
 Definition project_tbl (st : store) (items : list (lexpr * option string)) (t : tbl) : res tbl :=
   do _ <- mapM (fun it => match fst it with
                           | EVar x | EProp x _ => of_opt (pos_last x (cols t))
                           | _ => Ok O end) items;
   do rs <- mapM (fun r => mapM (fun it => proj_cell st (cols t) r true (fst it)) items) (rows t);
-  Ok (mkTbl (map item_name items) rs).
+  Ok (mkT (map item_name items) (typed_rows (map (fun it => if is_var (fst it) then TNode else TGen) items) rs)).
 
 (** ** Property columns materialised in front of Sort and Aggregate (plan_sort l.1407-1463,
     plan_aggregate l.1549-1618): a column "x_k" per distinct property expression that is not a
@@ -425,7 +476,7 @@ Definition add_prop_cols (st : store) (t : tbl) (es : list lexpr) : res tbl :=
                                              Ok (CVal (pprop st c (snd (fst (fst ps))))))
                                   (combine pcs srcs);
                  Ok (map to_nodecol r ++ extra)) (rows t);
-      Ok (mkTbl (cols t ++ map snd pcs) rs)
+      Ok (mkT (cols t ++ map snd pcs) (typed_rows (map (fun _ => TNode) (cols t) ++ map (fun _ => TGen) pcs) rs))
   end.
 (** resolve_sort_expression_with_properties / resolve_expression_to_column_with_properties *)
 Definition key_col (cs : list string) (e : lexpr) : res nat :=
@@ -474,6 +525,13 @@ Definition limit_rows (n : nat) (rs : list row) : list row :=
   end.
 Definition skip_rows (n : nat) (rs : list row) : list row :=
   if Nat.eqb n O then rs else map (map to_gen) (skipn n rs).
+
+(** a chunk handed on untouched keeps its selection vector *)
+Definition limit_tbl (n : nat) (t : tbl) : tbl :=
+  if Nat.ltb 0 n && negb (Nat.eqb (List.length (rows t)) 0) && Nat.leb (List.length (rows t)) n then t
+  else mkT (cols t) (limit_rows n (rows t)).
+Definition skip_tbl (n : nat) (t : tbl) : tbl :=
+  if Nat.eqb n 0 then t else mkT (cols t) (skip_rows n (rows t)).
 
 (** ** Distinct (distinct.rs): first occurrence of every row (compared by value), Generic output *)
 Definition row_vals_eqb (a b : list val) : bool :=
@@ -530,6 +588,9 @@ Definition agg_name (a : aggx) : string :=
             | ACollect => "collect(...)"%string
             end
   end.
+(** plan_aggregate l.1661-1680: the result vectors of count/sum/min/max are Int64, of avg Float64 *)
+Definition agg_coltype (a : aggx) : coltype :=
+  match ag_fn a with AAvg => TFlt | ACollect => TGen | _ => TInt end.
 Definition aggregate_tbl (st : store) (gb : list lexpr) (aggs : list aggx) (t : tbl) : res tbl :=
   do t1 <- add_prop_cols st t (gb ++ flat_map (fun a => match ag_arg a with Some e => [e] | None => [] end) aggs);
   do gcols <- mapM (key_col (cols t1)) gb;
@@ -545,24 +606,25 @@ Definition aggregate_tbl (st : store) (gb : list lexpr) (aggs : list aggx) (t : 
       Ok (map CVal (k ++ avs)) in
   if negb (forallb (fun r => forallb group_key_ok (keyof r)) (rows t1)) then Err else
   match gb with
-  | [] => do r <- one []; Ok (mkTbl names [r])     (* SimpleAggregateOperator: always one row *)
-  | _ => do rs <- mapM one (dedup_by row_vals_eqb [] (map keyof (rows t1))); Ok (mkTbl names rs)
+  | [] => do r <- one []; Ok (mkT names (typed_rows (map agg_coltype aggs) [r]))  (* SimpleAggregateOperator: always one row *)
+  | _ => do rs <- mapM one (dedup_by row_vals_eqb [] (map keyof (rows t1)));
+         Ok (mkT names (typed_rows (map (fun _ => TGen) gb ++ map agg_coltype aggs) rs))
   end.
 
 (** * sem_ops: the plan as the planner builds it with every physical optimisation switched off *)
 Fixpoint sem_ops (st : store) (p : lop) : res tbl :=
   match p with
-  | LScan x label => Ok (mkTbl [x] (scan_rows st label))
+  | LScan x label => Ok (mkT [x] (scan_rows st label))
   | LExpand from to ev d ty minh maxh input =>
       do t <- sem_ops st input;
       do _ <- of_opt (pos_first from (cols t));
       do rs <- (if is_single_hop minh maxh
                 then expand_rows st true (cols t) from d ty (rows t)
                 else vle_rows st true (cols t) from d ty minh maxh (rows t));
-      Ok (mkTbl (cols t ++ [edge_col ev; to]) rs)
+      Ok (mkT (cols t ++ [edge_col ev; to]) rs)
   | LFilter e input =>
       do t <- sem_ops st input;
-      Ok (mkTbl (cols t) (filter (fun r => passes_row st (cols t) r e) (rows t)))
+      Ok (filter_tbl (fun r => passes_row st (cols t) r e) t)
   | LReturn items _distinct input =>      (* plan_return never looks at ReturnOp.distinct *)
       do t <- sem_ops st input; return_tbl st items t
   | LProject items input =>
@@ -571,10 +633,10 @@ Fixpoint sem_ops (st : store) (p : lop) : res tbl :=
       do t <- sem_ops st input;
       do t1 <- add_prop_cols st t (map fst keys);
       do ks <- mapM (fun k => do c <- key_col (cols t1) (fst k); Ok (c, snd k)) keys;
-      Ok (mkTbl (cols t1) (map (map to_gen) (sort_rows ks (rows t1))))
-  | LSkip n input => do t <- sem_ops st input; Ok (mkTbl (cols t) (skip_rows n (rows t)))
-  | LLimit n input => do t <- sem_ops st input; Ok (mkTbl (cols t) (limit_rows n (rows t)))
-  | LDistinct input => do t <- sem_ops st input; Ok (mkTbl (cols t) (distinct_rows (rows t)))
+      Ok (mkT (cols t1) (map (map to_gen) (sort_rows ks (rows t1))))
+  | LSkip n input => do t <- sem_ops st input; Ok (skip_tbl n t)
+  | LLimit n input => do t <- sem_ops st input; Ok (limit_tbl n t)
+  | LDistinct input => do t <- sem_ops st input; Ok (mkT (cols t) (distinct_rows (rows t)))
   | LAggregate gb aggs input => do t <- sem_ops st input; aggregate_tbl st gb aggs t
   end.
 (** what the Executor hands out: every cell through [get_value] *)
